@@ -88,3 +88,42 @@ PLAN["C15"] = {
         {"run": "TestC15Failure", "shards": 10, "checks": 200, "timeout": 800, "shrink": "60s"},
     ]},
 }
+
+STACK_ASSUME = [
+    "nodes run in the harness process: real replica.Server + real replica REST router (fault middleware) + real rpc.Server over a fault-injecting DataProcessor on loopback aliases 127.x.y.z:9502/9503; the controller, remote.Factory, rpc.Client are the real ones",
+    "RPC deadlines 300 ms and monitor ping 150 ms through verif hooks (product: 30 s / 2 s); the rebuild file transfer is an extent-exact copy done by the harness, every other rebuild step is the product's",
+    "the membership model encodes the statements (C02-C05, C18), not the controller code; replica-side facts the model cannot know (closed?, revision counts) are read from the nodes",
+]
+
+def _stack(pid, test, rule, quick_checks, thorough_checks, shards=16, wall=150):
+    PLAN[pid] = {
+        "level": "exploration", "rule": rule, "assumptions": STACK_ASSUME,
+        "technique": "model-based property testing (rapid) of the real controller against in-process replica nodes with scripted per-replica faults",
+        "quick": {"wall": wall, "tests": [{"run": test, "shards": shards, "checks": quick_checks, "timeout": wall - 20}]},
+        "thorough": {"wall": 900, "tests": [{"run": test, "shards": shards, "checks": thorough_checks, "timeout": 840}]},
+    }
+
+_stack("C02", "TestC02",
+       "stack programs: RF 1-5, initial membership built through register/start/add/verify, writes/syncs/unmaps with a per-node outcome "
+       "(ok / error reply / stall past the 300 ms deadline / connection drop; at most two slow faults per case), corner-biased fault sets "
+       "(one, half, half+1, all), re-add and rebuild of detached nodes; oracle per call: acknowledged <=> applied (node data-path logs) by a strict "
+       "majority of the replicas attached at call time, failing replicas absent from ListReplicas on return and never contacted again, at the end "
+       "every in-service replica holds every acknowledged write in order and every RW replica reads back the model; non-trivial = >=1 write "
+       "acknowledged despite a failing replica and >=1 refused (minority or read-only)", 30, 900)
+_stack("C03", "TestC03",
+       "stack programs over boot/add/rebuild/remove/ping failure/connection drop/volume snapshot with per-node REST failure/I-O with faults; after every "
+       "step ReadOnly must equal #RW < RF/2+1 and RWReplicaCount the number of RW entries; write/sync/unmap probes in the read-only state must be "
+       "refused without reaching any replica (<=2 per case: each costs the built-in 1 s delay); non-trivial = the volume loses and regains its quorum", 24, 900)
+_stack("C04", "TestC04",
+       "stack programs with many reads (1-4 per step to move the round-robin cursor), per-node read failures, a WO replica holding a partial image "
+       "(joined after data was written); a successful read returns the model image, the serving node (node log) is RW in the model, failed readers are "
+       "detached, no RW replica => the read fails; non-trivial = >=1 read with a WO replica attached or with fail-over", 40, 900)
+_stack("C05", "TestC05",
+       "stack programs (RF 3-5) in which a subset of replicas fails by error reply, stall, connection drop, ping failure or node-side disconnect at a "
+       "generated point; in-flight and later operations succeed while a majority remains, the failed node is absent (I/O path: on return; monitor "
+       "path: polled up to 30 s, nominal 0.15-2 s), its data-path log is frozen, it returns only through add (WO first); non-trivial = >=1 such failure", 24, 900)
+_stack("C18", "TestC18",
+       "the C03 program space plus duplicate adds, adds beyond RF, a second WO with lower/equal/higher revision (takeover), unknown addresses, REST "
+       "set-mode RW/ERR/WO/bogus; after every step controller.VerifState(): no duplicate address, <=RF entries, backends == list with equal modes, "
+       "writers = non-ERR, readers = RW, index maps injective, <=1 WO, RWReplicaCount = #RW, detached nodes' logs frozen; non-trivial = >=1 "
+       "successful add and a remove or set-mode", 40, 900)
